@@ -36,6 +36,9 @@ SPECIAL += [
 ]
 
 
+SPECIAL += gen.ACCEPT_VS_EMPTY
+
+
 def _jobs(tier, seed):
     p = PARAMS[tier]
     fam = SPECIAL + gen.WITNESSES[:5] + gen.family(3, 3, limit=p["nfam"], rng_seed=101) + \
